@@ -706,3 +706,39 @@ def r16_full_destination_box_in_trap_space(ck, P, rid='C12-R16'):
             ck.ok(R, where, 'minus the destination offset')
         else:
             ck.violation(R, g.name, 'full-destination box.%s2' % axis, '%s stores the destination %s as box.%s2 without subtracting the destination offset (%s), but %s composites the box at %s_dst + box.%s1: for operators where a zero source has an effect and a non-zero offset, the strip of the destination before the offset is neither cleared nor drawn, and the trapezoids are cut at the far side' % (g.name, dim.split('.')[1], axis, 'the helper is not even handed the offset' if k is None else 'coefficient %d' % coef, F.name, axis, axis), x.loc())
+
+
+def r17_extents_follow_the_lines(ck, P, rid='C12-R17'):
+    """T-DEP: a trapezoid is bounded, between its top and bottom, by two *lines*, each given by two points that need not lie on top and
+    bottom.  The x extent of the shape is therefore a function of the points *and* of top / bottom (the lines evaluated there); a value
+    taken from an end point alone bounds the shape only when that point is not strictly inside (top, bottom)."""
+    R = ck.rule(rid, 'in the extents helper of pixman_composite_trapezoids every value folded into box.x1 / box.x2 depends on the trapezoid\'s top or bottom as well as on the points of a line (it is the line evaluated at the top or bottom edge): the x coordinate of an end point alone does not bound a trapezoid whose line end point lies strictly between top and bottom, and the mask route then cuts the shape where the direct route draws it', floor=2)
+    F = P.fn('pixman_composite_trapezoids', required=False)
+    g = None
+    if F is not None:
+        for c in F.calls():
+            h = P.resolve(F, c.callee) if c.callee else None
+            if h is not None and h.unit is F.unit and not h.exported and any(x.op == 'store' and (h.last_field(h.path(x.a[1])) or '') in ('pixman_box32.x1', 'pixman_box32.x2') for x in h.insts()) and any(('field', 'pixman_point_fixed.x') in h.atoms(x.a[0]) for x in h.insts() if x.op == 'store'):
+                g = h
+    if g is None:
+        raise AnalysisBroken('%s: the extents helper folding line points into a box was not found' % rid)
+    ck.saw(g)
+    n = 0
+    for x in g.insts():
+        if x.op != 'store':
+            continue
+        lf = g.last_field(g.path(x.a[1])) or ''
+        if lf not in ('pixman_box32.x1', 'pixman_box32.x2'):
+            continue
+        ats = g.atoms(x.a[0])
+        if ('field', 'pixman_point_fixed.x') not in ats:
+            continue
+        n += 1
+        pts = sorted({a[1] for a in ats if a[0] == 'field' and a[1].startswith('pixman_line_fixed.')})
+        where = '%s: %s from %s at %s' % (g.name, lf.split('.')[1], '/'.join(pts) or 'a point', x.loc())
+        if ('field', 'pixman_trapezoid.top') in ats or ('field', 'pixman_trapezoid.bottom') in ats:
+            ck.ok(R, where, 'the line evaluated at an edge')
+        else:
+            ck.violation(R, g.name, 'box.%s from an end point' % lf.split('.')[1], '%s folds the x coordinate of a line end point into box.%s as it is (%s): when that point lies strictly between the trapezoid\'s top and bottom the line - and the shape - continues beyond it, so the temporary mask of the mask route is too narrow and cuts the trapezoid, while the direct route (and rasterising into a full-size mask) draws all of it' % (g.name, lf.split('.')[1], x.loc()), x.loc())
+    if n == 0:
+        raise AnalysisBroken('%s: no store of a line point into the box found in %s' % (rid, g.name))
